@@ -294,6 +294,38 @@ def enveloped_inputs(inner):
     return out
 
 
+def mand_octet_positions(name):
+    """offsets, in the minimal instance, of the one-octet mandatory V elements behind the header (payload container type,
+    cause, request type halves ...): values a decoder may branch on"""
+    t = TBL[name]; mv = minimal_value(name); nh = len(header(name)); pos = 0; out = []
+    for k, (val, ts) in enumerate(zip(mv["mand"], [q for q in t["slots"] if q["mand"]])):
+        n = len(_enc_slot(val, ts))
+        if k >= nh and ts["lsz"] == 0 and n == 1: out.append(pos)
+        pos += n
+    return out
+
+
+def mand_value_inputs(name, base, singles, values):
+    """the minimal instance with each one-octet mandatory element set to each of `values`, followed by one optional element
+    (each identifier once, contents salted) and by the complete optional set: what is decoded of the optional part does not
+    depend on a mandatory value"""
+    out = []
+    poss = [p for p in mand_octet_positions(name) if p < len(base)]
+    if not poss: return out
+    one = {}
+    for e in sorted(singles, key=len):
+        k = e[0] if e[0] < 128 else e[0] // 16
+        if k not in one or (len(one[k]) < 4 <= len(e)): one[k] = e
+    order = [s_["iei"] for s_ in TBL[name]["slots"] if not s_["mand"]]
+    els = [salted(name, one[k], 0x61 + 3 * i) for i, k in enumerate(order) if k in one]
+    for p in poss:
+        for v in values:
+            b = base[:p] + [v] + base[p + 1:]
+            for e in els: out.append(b + e)
+            if len(els) > 1: out.append(b + [x for e in els for x in e])
+    return out
+
+
 def container_slots(name):
     """names of the elements of a message that carry another message or an arbitrary octet string of up to 64 KiB"""
     return [s["name"] for s in TBL[name]["slots"] if s["lsz"] == 2 and s["data"] == "buf" and s["max"] >= 65535
